@@ -634,11 +634,14 @@ def sliceOk (x : Arr) (sl : Option (Int × Int)) : Bool :=
   | some _, [] => false
   | none, _ => true
 
+/-- slot `i` of the pool exists and holds no object -/
+def vacant (s : St) (i : Nat) : Bool := decide (i < s.arrs.length) && !alive s i
+
 def Op.applicable (c : Cfg) (s : St) : Op → Bool
-  | .ctorDefault i _ | .ctorExt i _ _ | .ctorFill i _ _ => !alive s i
-  | .ctorCopy i j | .ctorCopyA i j _ | .ctorMove i j | .ctorMoveA i j _ => !alive s i && alive s j
-  | .ctorView i j _ sl => !alive s i && (match getArr s j with | some y => sliceOk y sl | none => false)
-  | .ctorRange i j _ => !alive s i && alive s j
+  | .ctorDefault i _ | .ctorExt i _ _ | .ctorFill i _ _ => vacant s i
+  | .ctorCopy i j | .ctorCopyA i j _ | .ctorMove i j | .ctorMoveA i j _ => vacant s i && alive s j
+  | .ctorView i j _ sl => vacant s i && (match getArr s j with | some y => sliceOk y sl | none => false)
+  | .ctorRange i j _ => vacant s i && alive s j
   | .dtor i | .clear i | .reextent i _ | .reextentFill i _ | .reextentRv i _ | .assignFill i _ => alive s i
   | .reshape i es => match getArr s i with | some x => nElems es == x.n | none => false
   | .assignCopy i j | .assignMove i j => alive s i && alive s j
